@@ -51,11 +51,20 @@ fn emit_choice(
             None
         };
 
+        // The start content is repeated in the output line, its tags included. The tags
+        // belong to the line of the choice: they come before a divert on the choice line.
+        let tags = choice
+            .start_tags
+            .iter()
+            .chain(&choice.selected_tags)
+            .cloned()
+            .map(Node::Tag);
         if choice.has_choice_only_content
             && !choice.has_start_content
             && matches!(choice.body.as_slice(), [Node::Divert(_)])
         {
             branch_nodes.extend(tokenize_inline_content(&format!(" {selected_text}"))?);
+            branch_nodes.extend(tags);
             branch_nodes.extend(choice.body.clone());
             branch_nodes.push(Node::Newline);
             body_already_emitted = true;
@@ -63,6 +72,7 @@ fn emit_choice(
             if !text.is_empty() {
                 branch_nodes.extend(tokenize_inline_content(&text)?);
             }
+            branch_nodes.extend(tags);
             branch_nodes.push(Node::Divert(Divert {
                 target,
                 arguments: Vec::new(),
@@ -70,10 +80,8 @@ fn emit_choice(
             body_already_emitted = true;
         } else {
             branch_nodes.extend(tokenize_inline_content(selected_text)?);
+            branch_nodes.extend(tags);
         }
-        // The start content is repeated in the output line, its tags included.
-        branch_nodes.extend(choice.start_tags.iter().cloned().map(Node::Tag));
-        branch_nodes.extend(choice.selected_tags.iter().cloned().map(Node::Tag));
         if !body_already_emitted {
             // Skip the auto-newline for terminal diverts, and also for inline diverts that are
             // authored after inline selected text on the same source line (the selected text keeps
